@@ -1,13 +1,63 @@
 package main
 
-import "os"
+import (
+	"bytes"
+	"crypto/tls"
+	"encoding/base64"
+	"fmt"
+	"net"
+	"os"
+	"path/filepath"
 
-// impostor is filled in by the C12 workload (see impostor_impl.go).
-var impostorImpl func()
+	plugin "github.com/hashicorp/go-plugin"
+	"google.golang.org/grpc"
+	"google.golang.org/grpc/credentials"
+	"google.golang.org/grpc/health"
+	"google.golang.org/grpc/health/grpc_health_v1"
+	"verif/vp"
+)
 
+// impostor announces certificate A in a perfectly valid handshake line but
+// serves with certificate B (or in plaintext). It never calls plugin.Serve for
+// the main listener; it serves the real protocol so that a host that failed to
+// verify the peer WOULD get an answer.
 func impostor() {
-	if impostorImpl != nil {
-		impostorImpl()
+	_, _, derA := vp.GenCert()
+	certB, keyB, _ := vp.GenCert()
+	dir := os.Getenv("TMPDIR")
+	sock := filepath.Join(dir, "impostor.sock")
+	os.Remove(sock)
+	ln, err := net.Listen("unix", sock)
+	if err != nil {
+		fmt.Fprintln(os.Stderr, "impostor:", err)
+		os.Exit(70)
 	}
-	os.Exit(66)
+	tc := &tls.Config{Certificates: []tls.Certificate{vp.KeyPair(certB, keyB)}, MinVersion: tls.VersionTLS12}
+	proto := cfg.ImpostorOf
+	switch proto {
+	case "grpc":
+		var opts []grpc.ServerOption
+		if !cfg.Plaintext {
+			opts = append(opts, grpc.Creds(credentials.NewTLS(tc)))
+		}
+		s := grpc.NewServer(opts...)
+		hs := health.NewServer()
+		hs.SetServingStatus(plugin.GRPCServiceName, grpc_health_v1.HealthCheckResponse_SERVING)
+		grpc_health_v1.RegisterHealthServer(s, hs)
+		go s.Serve(ln)
+	default:
+		proto = "netrpc"
+		var l net.Listener = ln
+		if !cfg.Plaintext {
+			l = tls.NewListener(ln, tc)
+		}
+		srv := &plugin.RPCServer{Plugins: vp.Set("netrpc", 1, []string{"kv"}, core), Stdout: bytes.NewReader(nil), Stderr: bytes.NewReader(nil), DoneCh: make(chan struct{})}
+		go srv.Serve(l)
+	}
+	line := fmt.Sprintf("1|1|unix|%s|%s|%s", sock, proto, base64.RawStdEncoding.EncodeToString(derA))
+	if os.Getenv("PLUGIN_MULTIPLEX_GRPC") != "" {
+		line += "|true"
+	}
+	fmt.Println(line)
+	select {}
 }
